@@ -27,11 +27,17 @@ CASE_TYPE = 'case'
 CHECK = 'check_case'
 SHARD = 6
 RULE = ('seeded random attribution tracks: 1-6 examples, length 40-600, gaussian noise + 0-10 planted '
-        'positive/negative bumps (a third of them adjacent to position 0/1 or to the end), float64/float32, '
-        'numpy/torch; recursive_seqlets with threshold 0.001-0.2, min/max lengths 3-30, additional_flanks 0-5; '
-        'tfmodisco_seqlets with window 1-25, flank 0-12, target_fdr 0.05-0.3; tracks on which the statistical '
-        'front end of recursive_seqlets must raise (no positive or no non-positive window sum for some length) '
-        'are re-drawn; non-trivial = returned table with >= 1 seqlet within `flanks` of an edge of its example')
+        'positive/negative bumps (40% adjacent to position 0/1 or to the end); recursive_seqlets with threshold '
+        '0.001-0.2, min/max lengths 1-30, additional_flanks 0-5, as numpy array or torch tensor, float64 / float32 / '
+        'int64, C / Fortran / column-strided / row-strided memory, Python / numpy.int64+float64 / numpy.int32+float32 '
+        'parameters, positional / keyword / all-default calls; tfmodisco_seqlets (float32 tensors) with window 1-25 '
+        '(even and odd, window = l, l-1), flank 0-12 and flanks masking every window, target_fdr 0.05-0.3 or default, '
+        'min/max_passing_frac and weak threshold varied, numpy integer parameters, strided views, all-default calls; '
+        'boundary streams for every integer parameter; multi-call sequences in one process (same object with one '
+        'parameter changed, another tensor of the same shape with the same parameters, the other caller on the same '
+        'tensor) where the LAST call is observed; tracks on which the statistical front end of recursive_seqlets '
+        'must raise (no positive or no non-positive window sum for some length) are re-drawn; non-trivial = returned '
+        'table with >= 1 seqlet within `flanks` of an edge of its example')
 TRUSTED = ['ast split of _recursive_seqlets.py_func (inserts one capture call, otherwise executes the current source as plain Python)',
            'wrapper around seqlet._iterative_extract_seqlets that clones its X_sum argument',
            'exact float -> scaled integer conversion (float.as_integer_ratio, one power-of-two scale per call for '
@@ -174,6 +180,11 @@ def make_track(inp):
     for i, pos, w, amp in inp.get('bumps', []):
         if i < X.shape[0]:
             X[i, max(pos, 0):max(pos + w, 0)] += amp
+    if inp.get('grid'):
+        # values on a grid of 2^-grid * noise: short literals for coqc (and exact cumulative sums);
+        # the other tracks keep full-precision floats
+        q = 2.0 ** inp['grid'] / inp.get('noise', 1.0)
+        X = numpy.round(X * q) / q
     return X
 
 
@@ -191,17 +202,143 @@ def front_end_must_raise(X, mn, mx):
 
 
 def _rows(table):
-    return [[int(r[0]), int(r[1]), int(r[2]), float(r[3]), float(r[4]) if len(r) > 4 else 0.0] for r in table]
+    """rows of a returned table as [idx, start, end, attr, p]; a non-integral index / position
+    is kept visible as -1 (which no well-formed row can have) instead of being truncated"""
+    def integer(v):
+        try:
+            return int(v) if float(v) == int(v) else -1
+        except (TypeError, ValueError, OverflowError):
+            return -1
+    return [[integer(r[0]), integer(r[1]), integer(r[2]), float(r[3]), float(r[4]) if len(r) > 4 else 0.0]
+            for r in table]
+
+
+REC_COLS = ['example_idx', 'start', 'end', 'attribution', 'p-value']
+TF_COLS = ['example_idx', 'start', 'end', 'attribution']
+
+
+def table_rows(df, cols):
+    """the returned DataFrame read BY COLUMN NAME (the names the property text uses), in row order"""
+    return _rows([[df[c].iloc[k] for c in cols] for k in range(len(df))])
+
+
+def np_dtype(inp):
+    return {'f32': numpy.float32, 'f64': numpy.float64, 'i64': numpy.int64}[inp['dtype']]
+
+
+def track_values(inp):
+    """the (n, l) values of the call in the call's dtype, C-contiguous"""
+    X64 = make_track(inp)
+    if inp['dtype'] == 'i64':
+        X64 = numpy.round(X64 * 4)
+    return numpy.ascontiguousarray(X64.astype(np_dtype(inp)))
+
+
+def make_object(values, layout, container):
+    """The object handed to the public function, the object owning its memory, and a function
+    telling whether that memory is bit-identical to what it was.  Layouts: 'c' contiguous,
+    'f' Fortran order, 'cols' every second column of a wider array, 'rows' every second row."""
+    n, l = values.shape
+    if layout == 'f':
+        base = numpy.asfortranarray(values.copy())
+        view = base
+    elif layout == 'cols':
+        base = numpy.full((n, 2 * l), 7, dtype=values.dtype)
+        base[:, ::2] = values
+        view = base[:, ::2]
+    elif layout == 'rows':
+        base = numpy.full((2 * n, l), 7, dtype=values.dtype)
+        base[::2] = values
+        view = base[::2]
+    else:
+        base = values.copy()
+        view = base
+    if container == 'torch':
+        tb = torch.from_numpy(base)
+        obj = tb if layout in ('c', 'f') else (tb[:, ::2] if layout == 'cols' else tb[::2])
+        keep = tb.clone()
+        return obj, (lambda: bool(torch.equal(tb, keep)) and bool(torch.equal(obj, torch.from_numpy(values))))
+    keep = base.copy()
+    return view, (lambda: base.tobytes() == keep.tobytes() and base.shape == keep.shape
+                  and numpy.array_equal(view, values))
+
+
+def typed_params(ptypes, thr, mn, mx, fl):
+    if ptypes == 'np64':
+        return numpy.float64(thr), numpy.int64(mn), numpy.int64(mx), numpy.int64(fl)
+    if ptypes == 'np32':
+        return numpy.float32(thr), numpy.int32(mn), numpy.int32(mx), numpy.int32(fl)
+    return thr, mn, mx, fl
+
+
+def rec_params(inp):
+    """threshold, min, max, flanks of the observed call (defaults read from the current signature)"""
+    from tangermeme import seqlet
+    if inp.get('defaults'):
+        sig = inspect.signature(seqlet.recursive_seqlets).parameters
+        return (float(sig['threshold'].default), int(sig['min_seqlet_len'].default),
+                int(sig['max_seqlet_len'].default), int(sig['additional_flanks'].default))
+    thr = inp['thr']
+    if inp.get('ptypes') == 'np32':
+        thr = float(numpy.float32(thr))
+    return thr, inp['min'], inp['max'], inp['flanks']
+
+
+def tf_params(inp):
+    from tangermeme import seqlet
+    if inp.get('defaults'):
+        sig = inspect.signature(seqlet.tfmodisco_seqlets).parameters
+        return int(sig['window_size'].default), int(sig['flank'].default)
+    return inp['window'], inp['flank']
+
+
+def tf_kwargs(inp):
+    kw = {}
+    if not inp.get('defaults'):
+        w, f = inp['window'], inp['flank']
+        if inp.get('ptypes') == 'np64':
+            w, f = numpy.int64(w), numpy.int64(f)
+        elif inp.get('ptypes') == 'np32':
+            w, f = numpy.int32(w), numpy.int32(f)
+        kw.update(window_size=w, flank=f)
+    for k_in, k_out in (('fdr', 'target_fdr'), ('min_frac', 'min_passing_frac'), ('max_frac', 'max_passing_frac'),
+                        ('weak', 'weak_threshold_for_counting_sign')):
+        if k_in in inp:
+            kw[k_out] = inp[k_in]
+    return kw
+
+
+def run_pre(inp, obj):
+    """Earlier calls in the same process (multi-call sequences): on the very same object with one
+    thing changed, or on another tensor of the same shape with the same parameters.  Their results
+    are not inspected here - what is observed is the LAST call and the caller's object."""
+    from tangermeme import seqlet
+    for pre in inp.get('pre', []):
+        try:
+            if pre['x'] == 'same':
+                x = obj
+            else:
+                other = dict(inp, seed=pre['other_seed'])
+                other.pop('X', None)
+                if 'seed' not in inp:
+                    other['n'], other['l'] = len(inp['X']), len(inp['X'][0])
+                vals = track_values(other)
+                x = torch.from_numpy(vals) if isinstance(obj, torch.Tensor) else vals
+            with time_limit(TF_LIMIT):
+                if pre['fn'] == 'rec':
+                    seqlet.recursive_seqlets(x, *pre['args'])
+                else:
+                    seqlet.tfmodisco_seqlets(x, **pre['args'])
+        except Exception:
+            pass
 
 
 def run_rec(inp):
     from tangermeme import seqlet
-    X64 = make_track(inp)
-    dt = numpy.float32 if inp['dtype'] == 'f32' else numpy.float64
-    Xnp = numpy.ascontiguousarray(X64.astype(dt))
-    args = (inp['thr'], inp['min'], inp['max'], inp['flanks'])
+    Xnp = track_values(inp)
+    args = rec_params(inp)
     out = {'kind': 'rec', 'X': [[float(v) for v in row] for row in Xnp], 'pub': None, 'jit': None,
-           'py': None, 'caps': None, 'unchanged': True}
+           'py': None, 'caps': None, 'unchanged': True, 'params': list(args)}
     # 1. instrumented pure-Python kernel (interruptible: run first, the compiled runs are
     #    skipped when it does not terminate)
     caps = []
@@ -227,18 +364,23 @@ def run_rec(inp):
         if [c[0] for c in caps] == list(range(len(caps))) and len(caps) == Xnp.shape[0]:
             out['caps'] = [{'pm': numpy.asarray(pm, dtype=numpy.float64).tolist(),
                             'cs': [float(v) for v in numpy.asarray(cs).ravel()]} for _, pm, cs in caps]
-    # 2. public function
-    Xpub = torch.from_numpy(Xnp.copy()) if inp.get('container') == 'torch' else Xnp.copy()
-    keep = Xpub.clone() if isinstance(Xpub, torch.Tensor) else Xpub.copy()
+    # 2. public function: the caller's object in the requested layout / container, parameters in
+    #    the requested Python / numpy types, after the earlier calls of the sequence
+    obj, intact = make_object(Xnp, inp.get('layout', 'c'), inp.get('container', 'numpy'))
+    run_pre(inp, obj)
     try:
-        df = seqlet.recursive_seqlets(Xpub, *args)
-        out['cols'] = [str(c) for c in df.columns]
-        out['pub'] = _rows(df.values.tolist())
+        if inp.get('defaults'):
+            df = seqlet.recursive_seqlets(obj)
+        elif inp.get('keywords'):
+            t, a, b, f = typed_params(inp.get('ptypes'), inp['thr'], inp['min'], inp['max'], inp['flanks'])
+            df = seqlet.recursive_seqlets(additional_flanks=f, max_seqlet_len=b, min_seqlet_len=a, threshold=t, X=obj)
+        else:
+            df = seqlet.recursive_seqlets(obj, *typed_params(inp.get('ptypes'), inp['thr'], inp['min'],
+                                                             inp['max'], inp['flanks']))
+        out['pub'] = table_rows(df, REC_COLS)
     except Exception as e:
         out['pub_exc'] = repr(e)[:200]
-    same = torch.equal(Xpub, keep) if isinstance(Xpub, torch.Tensor) else \
-        (Xpub.tobytes() == keep.tobytes() and Xpub.shape == keep.shape)
-    out['unchanged'] = bool(same)
+    out['unchanged'] = bool(intact())
     # 3. compiled kernel
     try:
         Xj = Xnp.copy()
@@ -251,11 +393,10 @@ def run_rec(inp):
 
 def run_tf(inp):
     from tangermeme import seqlet
-    X64 = make_track(inp)
-    dt = torch.float32 if inp['dtype'] == 'f32' else torch.float64
-    X = torch.from_numpy(X64).to(dt).contiguous()
-    keep = X.clone()
-    out = {'kind': 'tf', 'X': X.to(torch.float64).tolist()}
+    vals = track_values(inp)
+    obj, intact = make_object(vals, inp.get('layout', 'c'), 'torch')
+    out = {'kind': 'tf', 'X': [[float(v) for v in row] for row in vals], 'params': list(tf_params(inp))}
+    run_pre(inp, obj)
     cap = {}
     orig = seqlet._iterative_extract_seqlets
 
@@ -274,9 +415,8 @@ def run_tf(inp):
             cap['skipped'] = True
             raise ImplTimeout()
         with time_limit(TF_LIMIT):
-            df = seqlet.tfmodisco_seqlets(X, window_size=inp['window'], flank=inp['flank'],
-                                          target_fdr=inp.get('fdr', 0.2))
-        out['pub'] = _rows(df.values.tolist())
+            df = seqlet.tfmodisco_seqlets(obj, **tf_kwargs(inp))
+        out['pub'] = table_rows(df, TF_COLS)
     except ImplTimeout:
         out['pub'] = None
         out['timeout'] = True
@@ -286,7 +426,7 @@ def run_tf(inp):
         out['pub_exc'] = repr(e)[:200]
     finally:
         seqlet._iterative_extract_seqlets = orig
-    out['unchanged'] = bool(torch.equal(X, keep))
+    out['unchanged'] = bool(intact())
     if cap.get('skipped'):
         out['scores'] = None
         out['skipped'] = True
@@ -360,6 +500,7 @@ def coq_rec(inp, out):
     prec = 24 if inp['dtype'] == 'f32' else 53
     X = out['X']
     l = len(X[0])
+    thr, mn, mx, fl = out['params']
     caps = out.get('caps')
     tables = [out.get('pub'), out.get('jit'), out.get('py')]
     sx, sp = Scale(), Scale()
@@ -370,15 +511,14 @@ def coq_rec(inp, out):
             if t is not None:
                 sx.see([r[3] for r in t])
                 sp.see([r[4] for r in t])
-        sp.see([inp['thr'], 1.0])
+        sp.see([thr, 1.0])
         if caps is not None:
             for c in caps:
                 sx.see(c['cs'])
                 for row in c['pm']:
                     sp.see(row)
         Xl = C.lst([sx.zl(row) for row in X])
-        P = '(Pm %s %s %s %s %s %s)' % (sp.z(inp['thr']), sp.z(1.0), C.z(inp['min']), C.z(inp['max']),
-                                        C.z(inp['flanks']), C.z(l))
+        P = '(Pm %s %s %s %s %s %s)' % (sp.z(thr), sp.z(1.0), C.z(mn), C.z(mx), C.z(fl), C.z(l))
         if caps is not None:
             # rows as indices into a table of the distinct values (1.0 first, then by
             # frequency), trailing 1.0 cells dropped: decoded in Coq by Spec.unpack
@@ -433,7 +573,7 @@ def coq_tf(inp, out):
                     for row in out['scores']])
         w, f, s = out['cap']
         # window / flank as requested by the caller (spec) - the captured triple must agree
-        if (w, f) != (inp['window'], inp['flank']):
+        if [w, f] != list(out['params']):
             return BROKEN
         call = '(CTf %s %d (Tf %s %s %s) %s)' % (Xl, prec, C.z(w), C.z(f), C.z(s), sc)
         return '(%s, Err, Err, %s, %s)' % (call, table_lit(out['pub'], sx, sp), C.boolean(out['unchanged']))
@@ -452,7 +592,7 @@ def _edge(inp, out):
     if not out.get('pub'):
         return False
     l = len(out['X'][0])
-    f = inp['flanks'] if inp['kind'] == 'rec' else inp['flank']
+    f = out['params'][3] if inp['kind'] == 'rec' else out['params'][1]
     return any(r[1] <= f or l - r[2] <= f for r in out['pub'])
 
 
@@ -492,15 +632,27 @@ def _bumps(rng, n, l, k, wlo=3, whi=16):
     return bs
 
 
-def gen_rec(rng, big):
+def _rec_ok(inp):
+    mn, mx = (inp['min'], inp['max']) if not inp.get('defaults') else (4, 25)
+    return not front_end_must_raise(track_values(inp).astype(numpy.float64), mn, mx)
+
+
+def gen_rec(rng, big, plain=False):
+    """one recursive_seqlets call.  Besides track, threshold, lengths and flanks the stream varies
+    how the call is made: container (numpy / torch), dtype (float64 / float32 / int64), memory
+    layout (C, Fortran, column-strided and row-strided views of a larger array), the Python /
+    numpy types of the parameters, positional vs keyword arguments."""
     while True:
         n = rng.randint(1, 6)
         l = rng.choice([40, 41, 50, 64, 80, 100, 128, 150]) if not big else rng.randint(150, 600)
         if big:
             n = rng.randint(1, 3)
-        mn = rng.choice([3, 3, 3, 4, 4, 5, 6, 8, 12, 20, 29])
-        mx = rng.choice([mn, mn + 1, mn + 2, mn + 3, mn + 5, mn + 8, 10, 15, 25, 30])
+        mn = rng.choice([1, 2, 3, 3, 3, 3, 4, 4, 4, 5, 6, 8, 12, 20, 29])
+        mx = rng.choice([mn, mn + 1, mn + 1, mn + 2, mn + 3, mn + 5, mn + 8, 10, 15, 25, 30])
         mx = min(max(mx, mn), 30)
+        # coqc spends ~30 us per matrix cell on parsing: keep n * l * (max + 1) moderate
+        while n > 1 and n * l * (mx + 1) > (30000 if big else 9000):
+            n -= 1
         # p-values are multiples of about 2 / (n * l): thresholds below that never fire
         floor = 3.0 / (n * l)
         thrs = [t for t in (0.001, 0.005, 0.01, 0.02, 0.05, 0.1, 0.2) if t >= floor] or [0.2]
@@ -509,31 +661,164 @@ def gen_rec(rng, big):
             thr = rng.choice([0.001, 0.005])
         inp = {'kind': 'rec', 'seed': rng.randint(0, 10 ** 9), 'n': n, 'l': l,
                'noise': rng.choice([1.0, 1.0, 0.3, 0.01]),
-               'bumps': _bumps(rng, n, l, rng.randint(0, 10), mn, min(mx + 3, 30)),
+               'bumps': _bumps(rng, n, l, rng.randint(0, 10), max(mn, 3), min(mx + 3, 30)),
                'dtype': rng.choice(['f64', 'f64', 'f32']),
                'container': rng.choice(['numpy', 'torch']),
                'thr': thr, 'min': mn, 'max': mx, 'flanks': rng.randint(0, 5)}
         if inp['noise'] != 1.0:
             inp['bumps'] = [[i, p, w, a * inp['noise']] for i, p, w, a in inp['bumps']]
-        if not front_end_must_raise(make_track(inp), mn, mx):
+        if rng.random() < 0.7:
+            inp['grid'] = 8
+        if not plain:
+            form = rng.random()
+            if form < 0.10:
+                inp['dtype'], inp['noise'] = 'i64', 1.0       # integer attributions (values round(4 x))
+                inp['bumps'] = [[i, p, w, a if abs(a) >= 1 else a / abs(a) * 3.0] for i, p, w, a in inp['bumps']]
+            elif form < 0.30:
+                inp['layout'] = rng.choice(['f', 'cols', 'rows', 'cols'])
+            ptypes = rng.random()
+            if ptypes < 0.15:
+                inp['ptypes'] = 'np64'
+            elif ptypes < 0.22 and inp['dtype'] == 'f64' and 'layout' not in inp:
+                inp['ptypes'] = 'np32'
+            if rng.random() < 0.15:
+                inp['keywords'] = True
+        if _rec_ok(inp):
             return inp
 
 
-def gen_tf(rng, big):
+def gen_rec_boundary(rng):
+    """boundary values of the integer parameters: min == max (no length is tried), max == min + 1,
+    the largest lengths on the shortest track, flanks larger than the distance to both edges"""
+    for mn, mx, l, f in ((3, 3, 40, 2), (30, 30, 64, 0), (3, 4, 40, 5), (29, 30, 40, 5), (1, 2, 40, 1),
+                         (1, 30, 41, 3), (4, 25, 40, 5), (2, 3, 50, 0), (3, 30, 300, 5), (28, 30, 45, 4)):
+        for _try in range(20):
+            n = rng.randint(1, 3) if l < 100 else 1
+            w = min(mx + 2, 12)
+            inp = {'kind': 'rec', 'seed': rng.randint(0, 10 ** 9), 'n': n, 'l': l, 'noise': 1.0,
+                   'bumps': [[0, 1, w, 4.0], [n - 1, l - w - 2, w, -4.0]],
+                   'dtype': rng.choice(['f64', 'f32']), 'container': rng.choice(['numpy', 'torch']),
+                   'thr': rng.choice([0.05, 0.1, 0.2]), 'min': mn, 'max': mx, 'flanks': f}
+            if _rec_ok(inp):
+                yield inp
+                break
+
+
+def gen_rec_defaults(rng):
+    """recursive_seqlets(X) with every parameter left to its default"""
+    while True:
+        n, l = rng.choice([(2, 150), (2, 200), (3, 120), (1, 300)])
+        inp = {'kind': 'rec', 'seed': rng.randint(0, 10 ** 9), 'n': n, 'l': l, 'noise': 1.0,
+               'bumps': _bumps(rng, n, l, rng.randint(3, 8), 4, 20),
+               'dtype': rng.choice(['f64', 'f32']), 'container': rng.choice(['numpy', 'torch']),
+               'defaults': True}
+        if _rec_ok(inp):
+            return inp
+
+
+def gen_rec_sequence(rng):
+    """the observed call is the last of a sequence made in one process: earlier calls on the SAME
+    object with one parameter changed, on ANOTHER tensor of the same shape with the same
+    parameters (stale memoisation would show), or of the other caller on the same tensor"""
+    inp = gen_rec(rng, False, plain=True)
+    args = [inp['thr'], inp['min'], inp['max'], inp['flanks']]
+    pre = []
+    for _ in range(rng.randint(1, 3)):
+        kind = rng.random()
+        if kind < 0.4:
+            pre.append({'fn': 'rec', 'x': 'other', 'other_seed': rng.randint(0, 10 ** 9), 'args': list(args)})
+        elif kind < 0.8 or inp['dtype'] != 'f32' or inp['container'] != 'torch':
+            a = list(args)
+            k = rng.randrange(4)
+            a[k] = [rng.choice([0.05, 0.2, 0.01]), max(1, a[1] - 1), min(30, a[2] + 2), (a[3] + 2) % 6][k]
+            pre.append({'fn': 'rec', 'x': 'same', 'args': a})
+        else:
+            pre.append({'fn': 'tf', 'x': 'same', 'args': {'window_size': rng.choice([4, 5, 10]), 'flank': rng.choice([0, 2])}})
+    inp['pre'] = pre
+    return inp
+
+
+def gen_tf(rng, big, plain=False):
     n = rng.randint(1, 6)
     l = rng.randint(60, 250) if not big else rng.randint(250, 600)
-    w = rng.choice([1, 2, 3, 5, 8, 10, 15, 21, 25])
-    return {'kind': 'tf', 'seed': rng.randint(0, 10 ** 9), 'n': n, 'l': l,
-            'noise': rng.choice([1.0, 1.0, 0.1]),
-            'bumps': _bumps(rng, n, l, rng.randint(0, 10)),
-            'dtype': 'f32',   # the statistical front end (torch.quantile) only accepts float32
-            'window': w, 'flank': rng.choice([0, 0, 1, 2, 3, 5, 8, 10, 12]),
-            'fdr': rng.choice([0.05, 0.1, 0.2, 0.2, 0.3])}
+    w = rng.choice([1, 2, 3, 4, 5, 8, 10, 15, 20, 21, 25])
+    inp = {'kind': 'tf', 'seed': rng.randint(0, 10 ** 9), 'n': n, 'l': l,
+           'noise': rng.choice([1.0, 1.0, 0.1]),
+           'bumps': _bumps(rng, n, l, rng.randint(0, 10)),
+           'dtype': 'f32',   # the statistical front end (torch.quantile) only accepts float32
+           'window': w, 'flank': rng.choice([0, 0, 1, 2, 3, 5, 8, 10, 12]),
+           'fdr': rng.choice([0.05, 0.1, 0.2, 0.2, 0.3])}
+    if inp['noise'] != 1.0:
+        inp['bumps'] = [[i, p, w_, a * inp['noise']] for i, p, w_, a in inp['bumps']]
+    if rng.random() < 0.7:
+        inp['grid'] = 8
+    if not plain:
+        if rng.random() < 0.2:
+            inp['layout'] = rng.choice(['f', 'cols', 'rows'])
+        if rng.random() < 0.2:
+            inp['ptypes'] = rng.choice(['np64', 'np32'])
+        r = rng.random()
+        if r < 0.12:
+            inp['min_frac'], inp['max_frac'] = rng.choice([(0.0, 0.05), (0.1, 0.5), (0.2, 0.2), (0.03, 0.9)])
+        elif r < 0.18:
+            inp['weak'] = rng.choice([0.0, 0.1, 0.99])
+        elif r < 0.24:
+            del inp['fdr']                               # target_fdr left to its default
+    return inp
+
+
+def gen_tf_boundary(rng):
+    """window == l (one window per example), window == l - 1, flanks that mask every window
+    (2 * flank >= l - window + 1) or all but one, the smallest track"""
+    for l, w, f in ((40, 40, 0), (40, 39, 0), (40, 39, 1), (60, 21, 20), (60, 21, 19), (61, 20, 20), (40, 1, 0),
+                    (40, 2, 19), (100, 25, 12), (64, 4, 30)):
+        n = rng.randint(2, 6)
+        yield {'kind': 'tf', 'seed': rng.randint(0, 10 ** 9), 'n': n, 'l': l, 'noise': 1.0,
+               'bumps': [[0, 0, min(w + 2, l), 4.0], [n - 1, max(l - w - 2, 0), min(w + 2, l), 4.0],
+                         [n // 2, l // 2 - 3, 6, -4.0]],
+               'dtype': 'f32', 'window': w, 'flank': f, 'fdr': 0.2}
+
+
+def gen_tf_defaults(rng):
+    """tfmodisco_seqlets(X_attr) with window_size, flank and every threshold left to the defaults"""
+    n, l = rng.randint(1, 6), rng.randint(100, 400)
+    return {'kind': 'tf', 'seed': rng.randint(0, 10 ** 9), 'n': n, 'l': l, 'noise': 1.0,
+            'bumps': _bumps(rng, n, l, rng.randint(2, 10), 8, 24), 'dtype': 'f32', 'defaults': True}
+
+
+def gen_tf_sequence(rng):
+    inp = gen_tf(rng, False, plain=True)
+    kw = {'window_size': inp['window'], 'flank': inp['flank'], 'target_fdr': inp['fdr']}
+    pre = []
+    for _ in range(rng.randint(1, 3)):
+        kind = rng.random()
+        if kind < 0.35:
+            pre.append({'fn': 'tf', 'x': 'other', 'other_seed': rng.randint(0, 10 ** 9), 'args': dict(kw)})
+        elif kind < 0.75:
+            k2 = dict(kw)
+            which = rng.choice(['window_size', 'flank', 'target_fdr'])
+            k2[which] = {'window_size': inp['window'] + 1, 'flank': (inp['flank'] + 3) % 7,
+                         'target_fdr': 0.05 if inp['fdr'] != 0.05 else 0.3}[which]
+            pre.append({'fn': 'tf', 'x': 'same', 'args': k2})
+        else:
+            pre.append({'fn': 'rec', 'x': 'same', 'args': [0.05, 3, 8, rng.randint(0, 3)]})
+    inp['pre'] = pre
+    return inp
 
 
 def generate(tier, rng):
     quick = tier != 'thorough'
-    n_rec, n_big, n_tf = (90, 6, 50) if quick else (500, 40, 300)
+    n_rec, n_big, n_tf, n_def, n_seq = (70, 5, 40, 3, 7) if quick else (300, 25, 180, 15, 40)
+    for inp in gen_rec_boundary(rng):
+        yield inp
+    for inp in gen_tf_boundary(rng):
+        yield inp
+    for _ in range(n_def):
+        yield gen_rec_defaults(rng)
+        yield gen_tf_defaults(rng)
+    for _ in range(n_seq):
+        yield gen_rec_sequence(rng)
+        yield gen_tf_sequence(rng)
     for _ in range(n_rec):
         yield gen_rec(rng, False)
     for _ in range(n_big):
@@ -545,6 +830,17 @@ def generate(tier, rng):
 def shrink(inp):
     if _TIMEOUTS[0] > 3:        # a looping implementation: do not spend the run on shrinking
         return
+    # fewer things first: no earlier calls, plain call form
+    if inp.get('pre'):
+        for k in range(len(inp['pre'])):
+            yield dict(inp, pre=inp['pre'][:k] + inp['pre'][k + 1:])
+    for key in ('layout', 'ptypes', 'keywords', 'min_frac', 'max_frac', 'weak'):
+        if key in inp:
+            c = dict(inp)
+            del c[key]
+            if key == 'min_frac':
+                c.pop('max_frac', None)
+            yield c
     n = inp.get('n', len(inp.get('X', [[]])))
     if 'X' not in inp:
         if n > 1:
@@ -555,9 +851,10 @@ def shrink(inp):
             yield dict(inp, bumps=inp['bumps'][:k] + inp['bumps'][k + 1:])
         l = inp['l']
         for l2 in (l // 2, l - 10, l - 1):
-            if l2 >= 40 and all(b[1] + b[2] <= l2 for b in inp['bumps']):
+            if l2 >= 40 and all(b[1] + b[2] <= l2 for b in inp['bumps']) \
+                    and (inp['kind'] == 'rec' or inp.get('defaults') or inp['window'] <= l2):
                 yield dict(inp, l=l2)
-    if inp['kind'] == 'rec':
+    if inp['kind'] == 'rec' and not inp.get('defaults'):
         if inp['flanks'] > 0:
             yield dict(inp, flanks=inp['flanks'] - 1)
         if inp['max'] > inp['min'] + 1:
@@ -572,22 +869,22 @@ def search(rng, disagreeing):
     """Boundary-directed extra inputs: every seqlet-producing bump sits next to an edge and the
     flanks are large, so that clipping at 0 and at l is exercised."""
     for inp in disagreeing[:5]:
-        if inp['kind'] == 'rec' and 'X' not in inp:
+        if inp['kind'] == 'rec' and 'X' not in inp and not inp.get('defaults'):
             for f in (1, 3, 5):
                 w = min(inp['max'] + 1, 12)
                 yield dict(inp, flanks=f, bumps=[[0, 1, w, 4.0 * inp.get('noise', 1.0)],
                                                  [0, inp['l'] - w - 1, w, -4.0 * inp.get('noise', 1.0)]])
     for _ in range(24):
-        inp = gen_rec(rng, False)
+        inp = gen_rec(rng, False, plain=True)
         w = min(inp['max'] + 1, 12)
         a = 4.0 * inp['noise']
         inp['bumps'] = [[i, 1, w, a] for i in range(inp['n'])] + [[i, inp['l'] - w - 1, w, -a] for i in range(inp['n'])]
         inp['flanks'] = rng.choice([2, 3, 4, 5])
         inp['thr'] = max(inp['thr'], 0.05)
-        if not front_end_must_raise(make_track(inp), inp['min'], inp['max']):
+        if _rec_ok(inp):
             yield inp
     for _ in range(12):
-        inp = gen_tf(rng, False)
+        inp = gen_tf(rng, False, plain=True)
         inp['window'] = rng.choice([1, 2, 3, 5])
         inp['flank'] = rng.choice([0, 1, 2, 3])
         inp['bumps'] = [[i, 0, 6, 4.0 * inp['noise']] for i in range(inp['n'])] + \
